@@ -1,3 +1,9 @@
 // Pasted into swarm/src/dial_opts.rs (mod verif) under cfg(kani).
 #[allow(unused_imports)]
 use super::*;
+
+pub(crate) mod c03 {
+    #[allow(unused_imports)]
+    use super::super::*;
+    include!(concat!(env!("LIBP2P_VERIF"), "/units/C03/dial_opts.rs"));
+}
